@@ -15,8 +15,8 @@ SCR.mkdir(exist_ok=True)
 SCRATCH = os.environ.get("SEED_SCRATCH") == "1"
 BASE = os.environ.get("SEED_BASE", "HEAD")
 EXTRA = {"C14": ["C14", "C07"], "C07": ["C07", "C14"], "C09": ["C09", "C18"], "C03": ["C03", "C19", "C01", "C10"], "C19": ["C19", "C03"],
-         "C11": ["C11", "C10"], "C16": ["C16", "C02", "C10"], "C02": ["C02", "C16", "C03"], "C01": ["C01", "C10", "C11", "C15"],
-         "C13": ["C13", "C10"], "C04": ["C04", "C03"], "C05": ["C05", "C11", "C14"], "C15": ["C15", "C10"], "C17": ["C17", "C13", "C10"],
+         "C11": ["C11", "C10"], "C16": ["C16", "C02", "C10"], "C02": ["C02", "C16", "C03"], "C01": ["C01", "C10", "C04", "C03", "C11", "C15"],
+         "C13": ["C13", "C10"], "C04": ["C04", "C03"], "C05": ["C05", "C04", "C02", "C10"], "C15": ["C15", "C10"], "C17": ["C17", "C13", "C10"],
          "C18": ["C18", "C09"], "C12": ["C12", "C10"], "C08": ["C08", "C10"], "C10": ["C10", "C11"]}
 
 
